@@ -60,9 +60,7 @@ def k_alternative_partition_brut_force(instance, k):
     # Construct L sets
     L = get_L_sets(alternatives, unique_votes)
 
-    L_segmented = {i: singleton_pair_combinations(list(alts)) for i, alts in L.items()}
-
-    partitions = dfs(0, [], None, m, k, L_segmented, unique_votes)
+    partitions = dfs(0, [], None, m, k, L, unique_votes)
 
     if partitions is not None:
         for axes in partitions:
@@ -89,9 +87,8 @@ def dfs(i, axes, shortest, m, k, L, unique_votes):
     :type m: int
     :param k: bound on the number of partitions
     :type k: int
-    :param L: dict containing all ways to add the alternatives
-    to be placed at step i unto the axes.
-    :type L: dict
+    :param L: dict containing the alternatives to be placed at step i.
+    :type L: dict(set)
     :param unique_votes: The unique orders within the profile.
     :type unique_votes: list(list)
 
@@ -104,17 +101,22 @@ def dfs(i, axes, shortest, m, k, L, unique_votes):
     if i == m:
         return axes
 
+    # The alternatives to be placed at step i (unless already placed as the partner of an earlier
+    # one) and those of the later steps: the next two end points of an axis may be an alternative
+    # of this step and one of a later step (cf. eligible_alternatives)
+    placed = {a for axis in axes for a in axis}
+    new = [a for a in L[i + 1] if a not in placed]
+    later = [a for j in range(i + 2, m + 1) for a in L[j] if a not in placed]
+
+    # Ignore partitions that are too large or not shorter than the shortest complete partition
+    def limit():
+        return k if shortest is None else min(k, len(shortest) - 1)
+
     # Get all ways to split the alternatives to be placed at step i
-    extensions = L[i + 1]
-
-    for extension in extensions:
-
-        # Ignore partitions that are too large
-        if len(extension) > k:
-            continue
+    for extension in singleton_pair_combinations(new, later, limit):
 
         # Find all ways to extend the axes with the given partition of new alternatives
-        new_axes = extend(axes, extension, unique_votes, k)
+        new_axes = extend(axes, extension, unique_votes, limit())
 
         for ax in new_axes:
             # Ignore this partition if it is already longer than the shortest complete partition
@@ -188,39 +190,30 @@ def extend(axes, extension, unique_votes, k):
     return new_axes
 
 
-def singleton_pair_combinations(items):
+def singleton_pair_combinations(items, later, limit, size=0):
     """
     A helper function of the k-alternative partition algorithm.
-    Constructs all partitions into singletons and unordered pairs of a given
-    set of items.
+    Generates all partitions into singletons and unordered pairs of a given
+    set of items, where an item may also be paired with one of the later items,
+    as long as size plus the number of singletons and pairs does not exceed limit().
     """
 
     if len(items) == 0:
-        return [[]]
-    elif len(items) == 1:
-        return [[tuple(items)]]
-    else:
-        combis = []
+        yield []
+
+    # Every singleton or pair holds at most two of the items
+    elif size + (len(items) + 1) // 2 <= limit():
 
         # Take the first element
-        head = items.pop(0)
+        head, items = items[0], items[1:]
 
-        # Give it a pair and find all partitions into singletons and unordered pairs of the remaining items
-        for pairing in items:
-            pair = (head, pairing)
+        # Give it a pair among the items, let it be a singleton (None) or give it a pair among the later items
+        for pairing in items + [None] + later:
+            pair = (head,) if pairing is None else (head, pairing)
 
             remaining_items = [i for i in items if i != pairing]
+            remaining_later = [i for i in later if i != pairing]
 
-            tail_combis = singleton_pair_combinations(remaining_items)
-
-            for combi in tail_combis:
-                combis.append([pair] + combi)
-
-        # Let it be a singleton and find all partitions into singletons and unordered pairs of the remaining items
-        other_combis = singleton_pair_combinations(items)
-
-        # compile all results partitions
-        for combi in other_combis:
-            combis.append([(head,)] + combi)
-
-        return combis
+            # Find all partitions into singletons and unordered pairs of the remaining items
+            for combi in singleton_pair_combinations(remaining_items, remaining_later, limit, size + 1):
+                yield [pair] + combi
